@@ -53,4 +53,23 @@ theorem dec_complete : dec_complete_statement := by
   · rw [decode_late r n hs]
     exact decodeTail_restores hc hr hlen hL (by omega) (by omega) hcw hd
 
+/-- the decoder never gives up on a correctable word: an error answer means that NO codeword of that
+length (≤ 255) lies within floor(n/2) of the input (contrapositive of `dec_complete`) -/
+theorem dec_err_far (n : Nat) (c r : List Nat) (msg : String) (h2 : 2 ≤ n) (h68 : n ≤ 68) (hc : Bytes c)
+    (hr : Bytes r) (hlen : c.length = r.length) (hL : c.length ≤ 255) (hcw : Codeword n c)
+    (h : RS.decode r n = .err msg) : n / 2 < dist c r := by
+  apply Nat.lt_of_not_le
+  intro hd
+  have := dec_complete n c r h2 h68 hc hr hlen hL hcw hd
+  rw [this] at h
+  cases h
+
+/-- the answer is a function of the nearest codeword only: two received words within floor(n/2) of
+the same codeword decode to the same result -/
+theorem dec_same_answer (n : Nat) (c r r' : List Nat) (h2 : 2 ≤ n) (h68 : n ≤ 68) (hc : Bytes c)
+    (hr : Bytes r) (hr' : Bytes r') (hlen : c.length = r.length) (hlen' : c.length = r'.length)
+    (hL : c.length ≤ 255) (hcw : Codeword n c) (hd : dist c r ≤ n / 2) (hd' : dist c r' ≤ n / 2) :
+    RS.decode r n = RS.decode r' n := by
+  rw [dec_complete n c r h2 h68 hc hr hlen hL hcw hd, dec_complete n c r' h2 h68 hc hr' hlen' hL hcw hd']
+
 end QRV.Props.C14
